@@ -87,6 +87,13 @@ class RealResult(object):
 
 
 # ------------------------------------------------------------------------------- translate
+def _w2c2_limits():
+    import resource
+    # a translator gone wrong must not eat the machine: 6 GiB address space, 60 s CPU
+    resource.setrlimit(resource.RLIMIT_AS, (6 << 30, 6 << 30))
+    resource.setrlimit(resource.RLIMIT_CPU, (60, 60))
+
+
 def translate(w2c2_exe, workdir, name, wasm_bytes, opts=(), timeout=120, env=None):
     """Run the real w2c2 in a fresh directory workdir/name; collects every file it writes."""
     tr = Translated()
@@ -106,7 +113,7 @@ def translate(w2c2_exe, workdir, name, wasm_bytes, opts=(), timeout=120, env=Non
     if env:
         e.update(env)
     try:
-        p = subprocess.run(tr.cmd, stdout=subprocess.PIPE, stderr=subprocess.PIPE, timeout=timeout, env=e, cwd=d)
+        p = subprocess.run(tr.cmd, stdout=subprocess.PIPE, stderr=subprocess.PIPE, timeout=timeout, env=e, cwd=d, preexec_fn=_w2c2_limits)
     except subprocess.TimeoutExpired:
         tr.stderr = "timeout"
         tr.dir, tr.name = d, name
